@@ -361,7 +361,7 @@ func c37exec(t *testing.T, r *vk.Run, fam string, k, depth int, noUnstall bool, 
 			}
 		}
 		var hist []string
-		dead, violated := false, false
+		dead, violated, hdrSet := false, false, false
 		for d := 0; d < depth && !dead; d++ {
 			if h1.busy {
 				h1.poll()
@@ -384,6 +384,16 @@ func c37exec(t *testing.T, r *vk.Run, fam string, k, depth int, noUnstall bool, 
 			}
 			if !h1.done && !h1.busy {
 				evs = append(evs, c37event{"hwrite", func() {
+					// a response header is set first: with a nil header map bfe's writeHeaders does
+					// not wait for the HEADERS frame, the handler's DATA message then races with
+					// the writer's result inside the serve loop's select, and under a stall the two
+					// orders end in different states (DATA buffered or not) - server-internal
+					// nondeterminism this explorer does not enumerate. With a header map the
+					// handler waits, one channel is ready at a time.
+					if !hdrSet {
+						hdrSet = true
+						h1.do(h2cmd{op: "header", k: "x-c37", v: "1"})
+					}
 					if _, blocked := h1.do(h2cmd{op: "write", n: 10}); !blocked {
 						h1.do(h2cmd{op: "flush"})
 					}
